@@ -27,6 +27,8 @@ def shard_random(col, shard, ngrammars, ninputs):
         for st in starts:
             for t in G.gen_inputs(rng, g, ninputs, st):
                 cases.append(R.Case(g, t[:48], st))
+                if ' ' in t and rng.random() < 0.5 and any(E.kind(x) in ('dot', 'skipto') for _, _, e in g['rules'] for x in E.walk(e)):
+                    cases.append(R.Case(g, t[:48].replace(' ', rng.choice(['\r\n', '\r', '\n', '\n\r', '  '])), st))
                 if ' ' in t and rng.random() < 0.15:      # whitespace is what \\s says it is: NBSP, LS, FS..US, VT, FF, NEL, ideographic space
                     cases.append(R.Case(g, t[:48].replace(' ', rng.choice(G.UNICODE_WS), rng.choice([1, 3])), st))
         for _, _, e in g['rules']:
@@ -65,8 +67,11 @@ POOL = [
     ('named', False, 'n', ('tok', 'a')), ('named', True, 'm', ('tok', 'b')), ('over', False, ('tok', 'c')),
     'empty', 'void', ('const', 'k'), ('look', False, ('tok', 'a')), ('skipgroup', ('tok', 'a')),
     ('named', False, 'n', ('group', ('seq', [('tok', 'b'), ('tok', 'c')]))), ('named', False, 'n', ('rep', False, None, False, ('tok', 'a'))),
+    # elements that do NOT skip whitespace, next to elements that do (also after rules that match nothing)
+    'dot', ('pat', r'\s*b'), ('pat', r'\s+c'), ('call', 'optr'), ('call', 'lookr'), ('call', 'UP'),
 ]
-AUX = [('lst', [], ('seq', [('tok', 'a'), ('tok', 'b')])), ('one', [], ('tok', 'a')), ('clo', [], ('rep', False, None, False, ('tok', 'c')))]
+AUX = [('lst', [], ('seq', [('tok', 'a'), ('tok', 'b')])), ('one', [], ('tok', 'a')), ('clo', [], ('rep', False, None, False, ('tok', 'c'))),
+       ('optr', [], ('opt', ('tok', 'x'))), ('lookr', [], ('look', False, ('pat', r'[abc]'))), ('UP', [], ('opt', ('tok', 'x')))]
 
 
 def shard_shapes(col, shard, nshards, triples_per_shard):
@@ -77,6 +82,12 @@ def shard_shapes(col, shard, nshards, triples_per_shard):
     seqs = [x for i, x in enumerate(seqs) if i % nshards == shard]
     for _ in range(triples_per_shard):
         seqs.append([rng.choice(POOL) for _ in range(3)])
+    if shard == 0:
+        # something consumed, then an element that may match NOTHING after skipping whitespace, then an element that does not skip
+        for lead in (('tok', 'a'), ('pat', r'\d+')):
+            for nul in (('call', 'optr'), ('call', 'lookr'), ('call', 'clo'), ('opt', ('tok', 'b')), 'void', ('const', 'k'), ('look', False, ('tok', 'a'))):
+                for nosk in ('dot', ('pat', r'\s*b'), ('pat', r'\s+c'), ('call', 'UP')):
+                    seqs.append([lead, nul, nosk])
     cases = []
     for es in seqs:
         g = {'rules': [('start', [], ('seq', es))] + AUX, 'directives': {}, 'keywords': []}
@@ -95,6 +106,9 @@ def shard_shapes(col, shard, nshards, triples_per_shard):
             else:
                 full += G.sample_sentence(rng, g, e)
         texts.add(' '.join(full))
+        if any(e in ('dot',) or (isinstance(e, tuple) and (e[0] == 'pat' and e[1].startswith('\\s') or e == ('call', 'optr') or e == ('call', 'lookr') or e == ('call', 'UP'))) for e in es):
+            for base in sorted(texts):
+                texts |= {base.replace(' ', '  '), base.replace(' ', '\r\n'), ' ' + base + ' ', '  ' + base.replace(' ', ' \n')}
         for t in sorted(texts):
             cases.append(R.Case(g, t))
     col.count('shapes.sequences', len(seqs))
